@@ -378,7 +378,7 @@ funcalloc(struct func *f, struct decl *d)
 	assert(!d->type->incomplete);
 	calcvla(f, d->type);
 	end = f->end;
-	if (d->type->size) {
+	if (d->type->size || !(d->type->prop & PROPVM)) {
 		f->end = f->start;
 		v = mkintconst(d->type->size);
 	} else {
